@@ -11,7 +11,7 @@ from ..core import (AnalysisError, FuncInfo, ap, ancestors, call_attr, calls, en
                     is_none_test, norm, src, stores, walk)
 from .common import callers_of, writers_of
 from .c05 import (BCIRC, Explorer, St, assume, tv, arg_of, call_fact, cfg_nodes, check_collect_acks, check_pairing,
-                  check_poll_ungated, check_register_after_send, check_resend, check_resend_survives, dump, invalidate, lookup_var, msg_param, path_fact, resolve_path, single_assign)
+                  check_poll_ungated, check_register_after_send, check_resend, check_resend_survives, dump, timer_drives, invalidate, lookup_var, msg_param, path_fact, resolve_path, single_assign)
 
 CLIENT = "hippolyzer/lib/client/hippo_client.py"
 
@@ -714,11 +714,7 @@ def r5(ctx):
     check_pairing(ctx, "C19.R5", names=("resend_unacked",))
     check_resend(ctx, "C19.R5")
     ar = repo.fn("HippoClient._attempt_resends", CLIENT)
-    okt = False
-    for c in find_calls(ar.node, "resend_unacked"):
-        anc = list(ancestors(c))
-        okt = okt or (any(isinstance(a, (ast.For, ast.AsyncFor)) and (ap(a.iter) or "").endswith("session.regions") for a in anc)
-                      and any(isinstance(a, ast.While) for a in anc))
+    okt = timer_drives(repo, ar)
     check_poll_ungated(ctx, "C19.R5", ar, "HippoClient._attempt_resends",
                        "a circuit is created with is_alive False and only marked alive after its reliable UseCircuitCode "
                        "was acked, so that first send is never retransmitted and never fails (connect() / login() hang "
